@@ -30,7 +30,9 @@ RULES["C11"] = (
     "slice_plane(cap=False) for +n and -n, (k,3) plane lists, face_index; slice_plane(cap=True) per engine earcut/triangle/manifold. "
     "Oracle (own code): signs by the documented |dot|<=1e-8 rule (exact integers on lattices); per-triangle segment by linear "
     "interpolation; Sutherland-Hodgman clipping for exact positive-side area / vector area / volume (divergence theorem from a point "
-    "in the plane); own point-triangle distance; own closedness and convexity. Non-trivial: the plane separates the vertices "
+    "in the plane); own point-triangle distance; own closedness and convexity. Capping failures are bucketed by input class (pinched cap boundary, vertex within tol.merge, "
+    "zero-area cap face before a further plane, crossing point on a rounding boundary of the 1e-8 merge grid) before engine / shape / plane kind. "
+    "Non-trivial: the plane separates the vertices "
     "(at least one segment / both sides non-empty); distinct by case."
 )
 ASSUMPTIONS["C11"] = [
@@ -41,7 +43,6 @@ ASSUMPTIONS["C11"] = [
     "Path3D.is_closed / path length are demanded only for distinct expected section points > 1e-4 apart (path merge tolerance 1e-5; for the processed Path2D of section_multiplane 1e-4 * path scale, as Path.merge_vertices works at tol_path.merge * scale); closedness also needs closed input and no vertex on the plane",
     "'general position' for closedness also requires every crossing point reproducible in float64 to 1e-6 (64 eps scale / sin(edge, plane)): the faces sharing a cut edge compute it independently; the same conditioning bounds the difference between a local_faces call and the full call",
     "capping works at the resolution tol.merge: exact volume / watertightness of capped halves is demanded only when distinct expected section points are > 1e-6 apart and every crossing point is reproducible to 1e-9 (8 eps scale / sin(edge, plane)); a vertex taken as on-plane within tolerance widens the area / volume tolerance by the band it may move (and points within tol.merge of the surface count as on it)",
-    "capped halves are checked exactly only if no expected crossing point has a coordinate within its float64 uncertainty of a rounding boundary of the 1e-8 grid of grouping.unique_rows (documented 'go either way'; hits a few % of cases at coordinates ~1e4, class cap:merge_grid_boundary_skipped)",
     "near-plane offsets avoid the half-grid value 5e-9 where the 1e-8 rounding grid of grouping.unique_rows may 'go either way' (documented there)",
     "transform_points' documented identity shortcut (|M - I| < 1e-8) is allowed for in the 2D round trip of section_multiplane",
     "template solids under jitter <= 0.05 / lattice >= 100 rounding are embedded (not self-intersecting); lattice 10 solids are used for capping only when convex by an exact test",
@@ -331,9 +332,9 @@ def endpoints_resolved(M, dots, signs, nlen=1.0):
 def merge_grid_safe(M, dots, signs, nlen=1.0):
     """capping fuses the copies of a crossing point (one per adjacent face) with grouping.unique_rows, which rounds
     x * 1e8 - 1e-6 to integers: copies that differ by float noise are NOT fused when a coordinate sits on a rounding
-    boundary (documented there as 'go either way'; noise / cell ~ 1e-4 at coordinates ~1e4). A case is outside that
-    documented behaviour only if no expected crossing point has a coordinate within its float64 uncertainty
-    (64 eps scale / sin(edge, plane)) of such a boundary."""
+    boundary (noise / cell ~ 1e-4 at coordinates ~1e4), the cap loop stays open and the capped volume is wrong.
+    Input class of that finding (signature C11.cap|merge_grid_boundary|...): some expected crossing point has a
+    coordinate within its float64 uncertainty (64 eps scale / sin(edge, plane)) of such a boundary -> returns False."""
     V, F = M["V"], M["F"]
     E = M["E"] if "E" in M else edges_of(F)
     cut = E[signs[E[:, 0]] * signs[E[:, 1]] < 0]
@@ -707,6 +708,14 @@ def b_cap(case, ctx):
                 cause = "snapped_vertex"
             elif len(pl) > 1 and Mhead is not None and Mhead["zero_area"]:
                 cause = "multiplane_zero_area_cap_face|" + engine
+            else:
+                # a crossing point within its float64 uncertainty of a rounding boundary of the absolute 1e-8 grid of
+                # grouping.unique_rows: the copies computed by the adjacent faces may not be fused (finding, own bucket)
+                safe = merge_grid_safe(M, *oracle_signs(M, *pl[0])[:2], nlen=float(np.linalg.norm(pl[0][1])))
+                if len(pl) > 1 and Mhead is not None:
+                    safe = safe and merge_grid_safe(Mhead, *oracle_signs(Mhead, *pl[-1])[:2], nlen=float(np.linalg.norm(pl[-1][1])))
+                if not safe:
+                    cause = f"merge_grid_boundary|{engine}|{shape}"
             if cause:
                 causes.add(cause)
                 cl.append("cap:" + cause.split("|")[0])
@@ -717,12 +726,6 @@ def b_cap(case, ctx):
             if len(pl) > 1 and Mhead is not None:
                 res = res and endpoints_resolved(Mhead, *oracle_signs(Mhead, *pl[-1])[:2], nlen=float(np.linalg.norm(pl[-1][1])))
             res = res and not c.gray and not (cH is not None and cH.gray)
-            safe = merge_grid_safe(M, *oracle_signs(M, *pl[0])[:2], nlen=float(np.linalg.norm(pl[0][1])))
-            if len(pl) > 1 and Mhead is not None:
-                safe = safe and merge_grid_safe(Mhead, *oracle_signs(Mhead, *pl[-1])[:2], nlen=float(np.linalg.norm(pl[-1][1])))
-            if res and not safe:
-                cl.append("cap:merge_grid_boundary_skipped")
-            res = res and safe
             if not res:
                 cl.append("cap:unresolved_skipped")
             try:
